@@ -16,8 +16,11 @@ import (
 
 var checks = map[string]func(*Ctx){
 	"C20": checkC20,
+	"C06": checkC06,
 	"C09": checkC09,
 	"C11": checkC11,
+	"C16": checkC16,
+	"C18": checkC18,
 }
 
 func main() {
